@@ -163,11 +163,9 @@ func (pn *File) ToJSON(encoder *jbtf.Encoder) ([]byte, error) {
 		}
 	}
 
-	if pn.DefaultValue != nil {
-		schema.DefaultValue = &jbtf.Bytes{
-			Data: pn.DefaultValue,
-		}
-	}
+	// The default value is deliberately not saved. jbtf.Bytes reads its payload
+	// up to the end of the buffer, so a second payload written behind the
+	// current value gets appended to it when the graph is loaded again.
 
 	return encoder.Marshal(schema)
 }
